@@ -12,6 +12,10 @@ from .extract import dec
 FEAS_MS = 1500
 
 
+import os as _os
+_FORKLOG = {} if _os.environ.get("PYVC_FORKLOG") else None
+
+
 class PathEnd(Exception):
     pass
 
@@ -170,6 +174,8 @@ class State:
             self.assume(z3.Not(c))
             return False
         p.record(True, alternatives=[False])
+        if _FORKLOG is not None:
+            _FORKLOG[str(c)[:120].replace("\n", " ")] = _FORKLOG.get(str(c)[:120].replace("\n", " "), 0) + 1
         self.assume(c)
         return True
 
@@ -179,6 +185,10 @@ class State:
         if p.replaying():
             return p.next()
         p.record(0, alternatives=list(range(1, n)))
+        if _FORKLOG is not None:
+            import traceback as _tb
+            k = "choose(%d) at %s" % (n, " < ".join("%s:%d" % (f.name, f.lineno) for f in _tb.extract_stack(limit=5)[:-1][::-1]))
+            _FORKLOG[k] = _FORKLOG.get(k, 0) + 1
         return 0
 
     # ---- obligations ----
